@@ -68,6 +68,41 @@ type input struct {
 const genFile = "zz_generated.rec.go"
 const sumName = "gengo.sum"
 
+// reachesUnrequested: some package is imported (transitively) by an entrypoint without being one
+func (in *input) reachesUnrequested(entry []int) bool {
+	asked := map[int]bool{}
+	for _, e := range entry {
+		asked[e] = true
+	}
+	seen := map[int]bool{}
+	var walk func(i int) bool
+	walk = func(i int) bool {
+		if i < 0 || i >= len(in.Pkgs) || seen[i] {
+			return false
+		}
+		seen[i] = true
+		if !asked[i] {
+			return true
+		}
+		for _, j := range in.Pkgs[i].Imports {
+			if walk(j) {
+				return true
+			}
+		}
+		return false
+	}
+	for _, e := range entry {
+		if e >= 0 && e < len(in.Pkgs) {
+			for _, j := range in.Pkgs[e].Imports {
+				if walk(j) {
+					return true
+				}
+			}
+		}
+	}
+	return false
+}
+
 // ---------- the synthetic module ----------
 
 func pkgName(dir string) string {
@@ -751,6 +786,12 @@ func (prop) Run(raw json.RawMessage, scratch string) core.Result {
 				fail = fmt.Sprintf("(Some %d)", *o.Fail)
 			}
 			coqOp = fmt.Sprintf("CRun %s %s %s %s", core.CoqBool(o.All), core.CoqBool(o.Force), core.CoqList(es), fail)
+			if o.All && o.Force && o.Entry != nil {
+				tags["run:force-all-subset"] = true
+				if in.reachesUnrequested(o.Entry) {
+					tags["run:force-all-subset-with-unrequested-import"] = true
+				}
+			}
 			switch {
 			case !o.All:
 				tags["run:direct-only"] = true
